@@ -110,7 +110,7 @@ Section Proofs.
     destruct s as [cl ph gl pl' [f w sz du] ar pd pdd cd ch g r rf].
     destruct a as [acl anx awh alp asz adu aar apd ars].
     cbn in *. subst.
-    unfold body, spec_render; cbn.
+    unfold body, render_frame, spec_render; cbn.
     destruct (render ars k (match n with Some _ => WStart | None => awh end) asz adu aar)
       as [res' r1'] eqn:Er'.
     assert (Hw : awh = match n with Some _ => WStart | None => awh end).
